@@ -150,6 +150,7 @@ Atomic<'a, ItemType, OgreAllocatorType, BUFFER_SIZE, MAX_STREAMS> {
     #[inline(always)]
     fn send(&self, item: ItemType) -> keen_retry::RetryConsumerResult<(), ItemType, ()> {
         if let Some((ogre_arc_item, slot)) = OgreArc::new(&self.allocator) {
+            #[cfg(feature = "verif")] crate::verif::yield_point("multi.ogre.slot_write");
             unsafe { std::ptr::write(slot, item) }
             _ = self.send_derived(&ogre_arc_item);
             keen_retry::RetryResult::Ok { reported_input: (), output: () }
@@ -161,6 +162,7 @@ Atomic<'a, ItemType, OgreAllocatorType, BUFFER_SIZE, MAX_STREAMS> {
     #[inline(always)]
     fn send_with<F: FnOnce(&mut ItemType)>(&self, setter: F) -> keen_retry::RetryConsumerResult<(), F, ()> {
         if let Some((ogre_arc_item, slot)) = OgreArc::new(&self.allocator) {
+            #[cfg(feature = "verif")] crate::verif::yield_point("multi.ogre.slot_write");
             setter(slot);
             _ = self.send_derived(&ogre_arc_item);
             keen_retry::RetryResult::Ok { reported_input: (), output: () }
